@@ -4,7 +4,7 @@
     of the import path); G = cmd/go in GOPATH mode (nearest enclosing vendor directory with Go
     files, else GOPATH/src; relative imports against the importing directory; packages are
     directories). *)
-From Verif Require Import Lib.Str Imports.Model Imports.Proofs.
+From Verif Require Import Lib.Str Imports.Model Imports.Proofs Imports.Load.
 From Coq Require Import Relations.Relation_Operators.
 
 (** The property at full strength (false of the faithful model today, see the [_refuted]
@@ -139,6 +139,37 @@ Theorem C16_load_nested_inhabited :
   /\ length (inits (fst (y_run_path (mkctx "gp/src" "" t_nested) (pth "a/b/c")))) = 5.
 Proof. exact load_nested_agree. Qed.
 Print Assumptions C16_load_nested_inhabited.
+
+(** ** Whole programs *)
+
+(** For every program of GOPATH packages and every entry import path: outside the regions
+    ([good_prog], decidable: every import satisfies [resolve_side] and is not rewritten by gta, an
+    import path names one directory and a directory has one import path, the entry is found where
+    it is) importSrc and the specification produce the same outcome: the same packages initialised
+    once in the same order, the same bindings, the same error (cycle, missing package, no Go
+    files) with the same output before it. *)
+Theorem C16_load_partial :
+  forall c e, good_prog c e = true -> y_run_path c e = g_run_path c e.
+Proof. exact load_agree. Qed.
+Print Assumptions C16_load_partial.
+
+Theorem C16_load_side_inhabited :
+  good_prog (mkctx "gp/src" "" t_nested) (pth "a/b/c") = true
+  /\ snd (g_run_path (mkctx "gp/src" "" t_nested) (pth "a/b/c")) = None
+  /\ In (EvEdge (pth "gp/src/a/b/c") (pth "x") (pth "gp/src/a/b/vendor/x")) (fst (g_run_path (mkctx "gp/src" "" t_nested) (pth "a/b/c")))
+  /\ good_prog (mkctx "gp/src" "" t_diamond) (pth "e") = true
+  /\ good_prog (mkctx "gp/src" "" t_cycle) (pth "e") = true
+  /\ snd (g_run_path (mkctx "gp/src" "" t_cycle) (pth "e")) = Some ECycle.
+Proof. exact good_prog_inhabited. Qed.
+Print Assumptions C16_load_side_inhabited.
+
+(** the side condition is violated by every refutation witness below that has an import-path entry *)
+Theorem C16_load_side_excludes_witnesses :
+  good_prog c_alias (pth "e") = false /\ good_prog c_shadow (pth "p") = false
+  /\ good_prog c_false_cycle (pth "e") = false /\ good_prog (mkctx "gp/src" "" t_xx) (pth "e") = false
+  /\ good_prog (mkctx "gp/src" "" t_nogo) (pth "e") = false /\ good_prog (mkctx "gp/src" "" t_twice) (pth "p") = false.
+Proof. exact good_prog_excludes. Qed.
+Print Assumptions C16_load_side_excludes_witnesses.
 
 (** ** Refutations of the full statement on the faithful model (each replayed on the implementation) *)
 
